@@ -11,9 +11,12 @@
 EXTENDS BigInt, Json, IOUtils, TLC, FiniteSets
 CONSTANT OpenFindings          \* names of open known findings (from known_findings.json)
 
+I128Max == I128MaxLit
+I128Min == I128MinLit
 S == INSTANCE FpDec WITH ZAdd <- BAdd, ZSub <- BSub, ZMul <- BMul, ZCmp <- BCmp, ZFloorDivMod <- BFloorDivMod,
        ZLit <- BLit, ZNeg <- BNeg, ZAbs <- BAbs, ZSign <- BSign, ZIsEven <- BIsEven, ZMod5Is0 <- BMod5Is0,
-       ZPow10 <- BPow10, ZPow2 <- BPow2, ZDigits <- BDigits, MaxFrac <- 18, CoeffBits <- 127
+       ZPow10 <- BPow10, ZPow2 <- BPow2, ZDigits <- BDigits, MaxFrac <- 18, CoeffBits <- 127,
+       CoeffMax <- I128Max, CoeffMin <- I128Min, MaxDigits <- 39
 T == INSTANCE FpText WITH MaxFrac <- 18, CoeffBits <- 127
 F == INSTANCE FpFloat WITH MaxFrac <- 18, CoeffBits <- 127
 D == INSTANCE FpDev WITH MaxFrac <- 18, CoeffBits <- 127
@@ -134,7 +137,7 @@ FromFloatOk(e) ==
      ELSE e.out.k = "err" /\ e.out.e = r[1]
 FromIntOk(e) ==
   LET v == Num(e.v) IN
-  IF e.ty = "u128" /\ BCmp(v, S!CoeffMax) > 0 THEN e.out.k = "err" /\ e.out.e = "InternalOverflow"
+  IF e.ty = "u128" /\ BCmp(v, I128Max) > 0 THEN e.out.k = "err" /\ e.out.e = "InternalOverflow"
   ELSE e.out.k = "ok" /\ Num(e.out) = v /\ e.out.f = 0
 ToIntOk(e) ==
   LET x == DecOf(e.x)  rg == TypeRange(e.ty)  kind == S!IntoIntKind(x, rg[1], rg[2]) IN
